@@ -432,7 +432,7 @@ class MistakeShock(Harness):
     bounds = {"quick": "2 markets, 2 sessions (1+2 steps), shock in either session, trigger time 0,1,2, rate sign "
                        "+/-/0, 2 agents quoting one limit order each per step (agent 0 buys, agent 1 sells, a third agent "
                        "either; market solver-chosen, price 10 off the market price) in the step before and at the trigger time",
-              "thorough": "3 agents"}
+              "thorough": "adds 3 agents for the trigger time 0 (one active step)"}
     assumptions = (rn.REDUCTION_NOTE,
                    "OrderMistakeShock.setup() is given a concrete float rate (it type-checks); the attribute is "
                    "then overwritten with a solver real of the same sign class",)
@@ -446,8 +446,10 @@ class MistakeShock(Harness):
                     if not enabled and sign != "+":
                         continue
                     for target in ("M0", "M1"):
-                        out.append({"where": where, "k": k, "sign": sign, "enabled": enabled, "target": target,
-                                    "A": 2 if tier == "quick" else 3})
+                        out.append({"where": where, "k": k, "sign": sign, "enabled": enabled, "target": target, "A": 2})
+                        if tier == "thorough" and (where, k) == (0, 0) and enabled:
+                            # (measured: three agents over two active steps do not finish in 45 minutes)
+                            out.append({"where": where, "k": k, "sign": sign, "enabled": enabled, "target": target, "A": 3})
         # a high-frequency agent next to one normal agent (either may be the first on the target market)
         for target in ("M0", "M1"):
             out.append({"where": 1, "k": 0, "sign": "-", "enabled": True, "target": target, "A": 1, "hft": 1})
